@@ -1124,3 +1124,12 @@ M("c08-f17-reintroduced-seen-key", ["C08"], ["C08.identity"],
   E(CB, "        seen_key = (key, spec.expected_value)", "        seen_key = key"), note="F17 (second site)")
 M("c08-f18-reintroduced", ["C08"], ["C08.identity"],
   E(SP, '    return f"({left_key} {operator} {right_key})"', '    return f"{left_key} {operator} {right_key}"'), note="F18")
+
+M("c03-f19-reintroduced", ["C03", "C11"], ["C03.nonrtc", "C11.who"],
+  E(SYNC, """            if not self._external_queue:
+                # nothing to do, e.g. activating a machine that already has a state
+                return None
+""", ""), note="F19")
+
+M("c12-f20-reintroduced", ["C12"], ["C12.dedup"],
+  E(DISP, '        yield f"{spec.attr_name}@{id(spec.func)}", partial(callable_method, spec.func)', '        yield f"{spec.attr_name}@None", partial(callable_method, spec.func)'), note="F20")
